@@ -15,11 +15,13 @@ import (
 	"fmt"
 	"os"
 	"os/exec"
+	"os/signal"
 	"path/filepath"
 	"runtime"
 	"sort"
 	"strings"
 	"sync"
+	"syscall"
 	"time"
 
 	"verif/evid"
@@ -168,6 +170,15 @@ func main() {
 	}
 	scratchDir = scratch
 	defer os.RemoveAll(scratch)
+	// an interrupted run (terminal closed, output pipe closed by `| head`, a
+	// timeout's SIGTERM) must not leave its scratch directory behind
+	sigc := make(chan os.Signal, 1)
+	signal.Notify(sigc, syscall.SIGINT, syscall.SIGTERM, syscall.SIGHUP, syscall.SIGPIPE)
+	go func() {
+		<-sigc
+		os.RemoveAll(scratch)
+		os.Exit(3)
+	}()
 	start := time.Now()
 	if buildOnly {
 		// compile every part once so that the build cache is warm
@@ -468,6 +479,7 @@ func buildHarness(s *part, root, scratch string) string {
 func replayMC(s *part, root, scratch, tier, replay string) int {
 	bin := buildHarness(s, root, scratch)
 	cmd := exec.Command(bin, "-test.run", "^TestMC$", "-tier", tierOfReplay(replay, tier), "-replay", replay)
+	cmd.SysProcAttr = &syscall.SysProcAttr{Pdeathsig: syscall.SIGKILL}
 	cmd.Stdout, cmd.Stderr = os.Stdout, os.Stderr
 	cmd.Env = env()
 	if err := cmd.Run(); err != nil {
@@ -746,6 +758,7 @@ func runEnum(s *part, root, scratch, tier string, passthru []string) *PartResult
 	args = append(args, s.Args...)
 	args = append(args, passthru...)
 	cmd := exec.Command(bin, args...)
+	cmd.SysProcAttr = &syscall.SysProcAttr{Pdeathsig: syscall.SIGKILL} // no orphaned explorers if the driver dies
 	cmd.Dir = filepath.Join(root, s.Harness)
 	cmd.Env = append(env(), "VERIF_SCRATCH="+scratch, "VERIF_ROOT="+root)
 	var errBuf strings.Builder
